@@ -31,7 +31,9 @@ CONSTANTS Issuers,       \* subset of {"trusted","trusted_inter","otherca","self
           Roles,         \* subset of {"server","client"}: the role of the PEER being verified
           Modes,         \* subset of {"receptor","dns","dns_noname"}
           StreamSrcs,    \* set of node ids (token sequences) for the stream-listener family
-          KF_ColonSplit, \* TRUE while the open finding C09:stream-name-colon-split is in the code
+          KF_ColonSplit, \* FALSE: the code as repaired (8d11383).  TRUE: the counter-example variant - the listener
+                         \* splits "node:service" at the first ':' (finding C09:stream-name-colon-split); it must FAIL
+                         \* AcceptImpliesAll / CodeWithinProp / StreamBindsSource (TLSVerify_colonsplit.cfg)
           DumpFile
 
 \* Range(s) (the set of elements of a sequence) comes from Functions via SequencesExt
@@ -100,17 +102,20 @@ OnlyFailure(v) == IF Cardinality(Failed(v)) = 1 THEN CHOOSE c \in Failed(v) : TR
 \* ---------------------------------------------------------------- the stream-listener rule
 \* A node id is a sequence of tokens; ":" is the separator the code splits the packet source
 \* address "node:service" at.  The property: the expected name is the node the packets claim to
-\* come from.  The code: the text before the first ':' of "node:service".
+\* come from.  The code takes the node of the typed source address - the same thing.  Before the
+\* repair it took the text before the first ':' of "node:service" (LegacyStreamExpected), which
+\* differs for node ids that contain ':'; that variant is kept under KF_ColonSplit = TRUE.
 HasColon(src) == ":" \in Range(src)
 FirstColon(src) == CHOOSE i \in 1..Len(src) : src[i] = ":" /\ \A j \in 1..(i-1) : src[j] # ":"
-CodeStreamExpected(src) == IF HasColon(src) THEN SubSeq(src, 1, FirstColon(src) - 1) ELSE src
+LegacyStreamExpected(src) == IF HasColon(src) THEN SubSeq(src, 1, FirstColon(src) - 1) ELSE src
+CodeStreamExpected(src) == IF KF_ColonSplit THEN LegacyStreamExpected(src) ELSE src
 PropStreamExpected(src) == src
 
 \* which id the client certificate names, relative to the source node
 StreamNameKinds == {"src", "codeprefix", "other", "none"}
 StreamCertName(src, k) ==
   CASE k = "src"        -> <<src>>
-    [] k = "codeprefix" -> <<CodeStreamExpected(src)>>
+    [] k = "codeprefix" -> <<LegacyStreamExpected(src)>>     \* the near miss the legacy split would accept
     [] k = "other"      -> <<<<"o">>>>
     [] k = "none"       -> <<>>
 
@@ -165,15 +170,15 @@ IsStream == vec.fam = "stream"
 
 \* acceptance implies every condition
 AcceptImpliesAll ==
-  vec.expect.code => (\A c \in CondNames : vec.conds[c]) \/ (KF_ColonSplit /\ IsStream /\ HasColon(vec.src))
+  vec.expect.code => \A c \in CondNames : vec.conds[c]
 
 \* failure of any single condition refuses
 SingleFailureRefuses ==
   vec.nfail >= 1 => ~vec.expect.prop /\ (IsTable => ~vec.expect.code)
 
-\* the code never accepts what the property refuses (modulo the named open finding)
+\* the code never accepts what the property refuses
 CodeWithinProp ==
-  (vec.expect.code => vec.expect.prop) \/ (KF_ColonSplit /\ IsStream /\ HasColon(vec.src))
+  vec.expect.code => vec.expect.prop
 
 \* apart from malformed pin lists the code accepts everything the property allows
 WellFormedEquiv ==
@@ -196,7 +201,11 @@ PinsOnlyRestrict ==
 
 \* the stream listener binds the certificate to the packet source
 StreamBindsSource ==
-  IsStream /\ vec.expect.code /\ ~(KF_ColonSplit /\ HasColon(vec.src)) => vec.src \in Range(vec.certnames)
+  IsStream /\ vec.expect.code => vec.src \in Range(vec.certnames)
+
+\* on the stream path the code is exactly the property (no pins there)
+StreamCodeIsProp ==
+  IsStream => (vec.expect.code <=> vec.expect.prop)
 
 \* ---------------------------------------------------------------- anti-vacuity witnesses (each must be violated)
 W_NoAccept        == ~(IsTable /\ vec.expect.code)
@@ -209,8 +218,9 @@ W_NoStricter      == ~(IsTable /\ vec.expect.prop /\ ~vec.expect.code)
 W_NoSeveralAccept == ~(IsTable /\ vec.expect.code /\ vec.names = "several" /\ Len(vec.pins) >= 2)
 W_NoStreamAccept  == ~(IsStream /\ vec.expect.code /\ vec.expect.prop)
 W_NoStreamOnlyName == ~(IsStream /\ vec.only = "name")
-\* the open finding is really in the model: a vector the code accepts and the property refuses
-W_NoColonSplit    == ~(IsStream /\ vec.expect.code /\ ~vec.expect.prop)
+\* a source id containing ':' is accepted with its own full name, and its prefix is a refused near miss
+W_NoColonSrcAccept == ~(IsStream /\ HasColon(vec.src) /\ vec.namekind = "src" /\ vec.expect.code)
+W_NoColonPrefixRefused == ~(IsStream /\ HasColon(vec.src) /\ vec.namekind = "codeprefix" /\ vec.only = "name" /\ ~vec.expect.code)
 
 \* ---------------------------------------------------------------- export
 ASSUME NameSets \subseteq NameSetUniverse
